@@ -915,6 +915,12 @@ func c08gen(g *gen, tier string, w *bufio.Writer) {
 				if s == nSteps-1 && g.chance(1, 8) {
 					nraw = nil // down to the empty file
 				}
+				if s == 0 && i%6 == 1 {
+					// a long diff: several times the 4096-byte buffer the diff is scanned with
+					for k, n := 0, 300+g.intn(200); k < n; k++ {
+						nraw = append(nraw, g.c08newLine(df, o))
+					}
+				}
 				if c08rawOK(nraw, serial) {
 					break
 				}
